@@ -132,4 +132,10 @@ CHECKS = [
              "connect, no cut response, sync answers every accepted connection, the long request is answered by the pid that started it, and after "
              "quiescence the master's children are exactly the new number, all newer than the last HUP, all reporting the new marker.",
      "note": "timing is seeded but real; empty responses on non-sync classes are tolerated per the statement; budget overruns are inconclusive"},
+    {"id": "C14", "engine": "R",
+     "technique": "enumerated upgrade histories with seeded jitter on real masters under a connect-loop client; pid-file, /proc and socket oracles",
+     "text": "Nine orderings of USR2 / TERM / QUIT / INT on old and new master (incl. second USR2 while pending, a second upgrade of the promoted master, "
+             "rollback then upgrade) x tcp/unix x worker class: no refused connect, pid-file / '.2' naming and promotion within 3 s, the survivor keeps "
+             "serving and the unix socket file stays, no third master, the rollback restores the single master with its worker count.",
+     "note": "real time with slack; daemon-mode WINCH rollback not in the quick tier"},
 ]
